@@ -19,8 +19,12 @@ from values import *
 STD_ENUMS = {
     'Option': ['None', 'Some'], 'Result': ['Ok', 'Err'], 'Cow': ['Borrowed', 'Owned'],
     'ControlFlow': ['Continue', 'Break'], 'Bound': ['Included', 'Excluded', 'Unbounded'],
+    # bincode 2.0.1 error enums (variant order of the crate source; `Foreign` / `TypeMismatch` are model-only stand-ins for "some other decode error")
+    'DecodeError': ['UnexpectedEnd', 'LimitExceeded', 'InvalidIntegerType', 'NonZeroTypeIsZero', 'UnexpectedVariant', 'Utf8', 'InvalidCharEncoding', 'InvalidBooleanValue',
+                    'ArrayLengthMismatch', 'OutsideUsizeRange', 'EmptyEnum', 'InvalidDuration', 'InvalidSystemTime', 'CStringNulError', 'Io', 'Other', 'OtherString', 'Serde',
+                    'Foreign', 'TypeMismatch'],
 }
-STD_VARIANT_OWNER = {v: k for k, vs in STD_ENUMS.items() for v in vs}
+STD_VARIANT_OWNER = {v: k for k, vs in STD_ENUMS.items() if k != 'DecodeError' for v in vs}       # bare variant names that identify their std enum
 
 _INT_TY = re.compile(r'(u|i)(8|16|32|64|128|size)$')
 
